@@ -13,6 +13,7 @@ import random
 import numpy as np
 
 from harness import alpha, core, gamma, lattice, shims, tlc, util
+from harness import spell
 
 INV = ["PointRefines", "Emit"]
 FIELDS = ["u", "v", "w", "f3", "f4", "f5", "f6", "f7"]
@@ -76,7 +77,7 @@ class World(object):
         os.makedirs(os.path.dirname(d))
         gamma.write_plotfile(d, ap, cfg_, values=flds.values)
         with core.quiet():
-            pck = PlotfileCooker(d)
+            pck = PlotfileCooker(spell.of(d, cfgseed)[0])
         self.cache[key] = (cfg_, lat, flds, pck)
         return self.cache[key]
 
